@@ -60,13 +60,14 @@ func GenTargeted(seed int64, idx int, profile string) (GCase, bool) {
 		"signatures": {famSignatures, famSignatures, famGenerics},
 		"selection":  {famSelection, famSelection},
 		"imports":    {famImports, famImportNames, famImportNames},
-		"matching":   {famMatching, famCandidates, famCandidates, famImports, famGetterShapes, famImportNames, famGenerics},
+		"matching":   {famMatching, famCandidates, famCandidates, famImports, famGetterShapes, famImportNames, famGenerics, famPlain, famPlain},
+		"plain":      {famPlain},
 		"slices":     {famSlices, famSlices},
 		"casefold":   {famCaseFlip, famCandidates},
 		"getters":    {famGetterShapes, famGetterShapes, famCandidates},
 		"runtime":    {famRuntime},
 		"generics":   {famGenerics, famImportNames},
-		"simple":     {famRefs},
+		"simple":     {famRefs, famPlain},
 		"mixed":      {famNested, famPerMethodLists, famSharedHooks, famErrors, famSignatures, famImports, famMatching, famSlices, famRefs, famCaseFlip, famCandidates, famGetterShapes, famImportNames, famGenerics},
 		"malformed":  {famSharedHooks, famErrors},
 	}
@@ -1103,6 +1104,51 @@ func famGenerics(t *tgen) {
 	t.files[t.name+"/setup.go"] = sb.String()
 	t.files[t.name+"/types.go"] = local
 	t.files[t.name+"/gx/gx.go"] = ext
+}
+
+// ---- notation-free methods over random struct pairs (the subject of the C04 specification judge) -----------------
+
+func famPlain(t *tgen) {
+	t.feat("family:plain-struct-pairs")
+	pool := []string{"int", "int64", "string", "bool", "*int", "MyInt", "Inner", "Inner2", "*Inner", "interface{}", "error", "map[string]int",
+		"[2]int", "func() error", "chan int", "Stringer", "Status", "E1", "E2", "struct{ K, V int }", "ext.Pub", "*ext.Pub", "ext.Kind"}
+	names := []string{"A", "B", "C", "Dd", "E", "F", "G", "H", "id", "name", "In", "Out", "Ext"}
+	ext := "package ext\n\ntype Kind int\ntype Pub struct {\n\tA int\n\tb int\n}\n"
+	var ty strings.Builder
+	fmt.Fprintf(&ty, "package %s\n\nimport \"exp/%s/ext\"\n\nvar _ ext.Kind\n\ntype MyInt int\ntype Stringer interface{ String() string }\ntype Status string\n\nfunc (s Status) String() string { return string(s) }\n\ntype E1 struct{}\ntype E2 struct{}\ntype Inner struct {\n\tX int\n\tY string\n}\ntype Inner2 struct {\n\tX int\n\tY string\n\tZ bool\n}\n\n", t.name, t.name)
+	nPairs := 1 + t.r.Intn(3)
+	var sb strings.Builder
+	sb.WriteString(header(t, fmt.Sprintf("\"exp/%s/ext\"", t.name)))
+	sb.WriteString("var _ ext.Kind\n\ntype Convergen interface {\n")
+	for j := 0; j < nPairs; j++ {
+		perm := t.r.Perm(len(names))
+		k := 3 + t.r.Intn(6)
+		fmt.Fprintf(&ty, "type S%d struct {\n", j)
+		srcTypes := map[string]string{}
+		for _, i := range perm[:k] {
+			if t.ch(0.8) {
+				srcTypes[names[i]] = pool[t.r.Intn(len(pool))]
+				fmt.Fprintf(&ty, "\t%s %s\n", names[i], srcTypes[names[i]])
+			}
+		}
+		ty.WriteString("}\n")
+		fmt.Fprintf(&ty, "type D%d struct {\n", j)
+		for _, i := range perm[:k] {
+			if t.ch(0.85) {
+				typ := pool[t.r.Intn(len(pool))]
+				if st, ok := srcTypes[names[i]]; ok && t.ch(0.6) {
+					typ = st
+				}
+				fmt.Fprintf(&ty, "\t%s %s\n", names[i], typ)
+			}
+		}
+		ty.WriteString("}\n\n")
+		fmt.Fprintf(&sb, "\tP%d(%sS%d) %sD%d\n", j, t.pick("*", ""), j, t.pick("*", ""), j)
+	}
+	sb.WriteString("}\n")
+	t.files[t.name+"/setup.go"] = sb.String()
+	t.files[t.name+"/types.go"] = ty.String()
+	t.files[t.name+"/ext/ext.go"] = ext
 }
 
 // ---- slices ---------------------------------------------------------------------------------------------------
